@@ -18,7 +18,8 @@
                                   authz, bank, parameter and new-block operations change no market's ledgers
     c01m_no_book_nothing_owed     nothing is owed on a uid that has no order book
     c01m_endblock_idle_frame      an end-block with both settlement queues empty changes nothing (the general end-block
-                                  frame and the per-market outflow equation are NOT proved)
+                                  frame is `c01m_endblock_frame`, C01MarketFrame.lean; the per-market outflow equation
+                                  is NOT proved)
     c01m_owed_nonneg_partial      (PARTIAL: under the ghost hypothesis `NonNegParts` of C02 — no backing part with a
                                   negative stake, KF-C03-negative-part — and valid parameters) `0 ≤ c1m_owed s m` for
                                   every market in every reachable state: the pool never holds less for a market than
@@ -99,8 +100,8 @@ theorem c01m_owed_nonneg_partial (p : Params) (bal : List (Nat × Int)) (h t : N
 /-- C01.i  (the end-block, the part proved so far.) An end-block that finds both settlement queues empty — no market
     waiting for bet settlement, no book waiting for the payment of its participations — changes nothing at all, so the
     ledgers of every market stay; a halting end-block changes nothing either (`c04_block_halt_unchanged`). The general
-    frame "a market in neither queue keeps its ledgers over an end-block that settles other markets" and the per-market
-    outflow equation are NOT proved here. -/
+    frame "a market in neither queue keeps its ledgers over an end-block that settles other markets" is
+    `c01m_endblock_frame` (C01MarketFrame.lean); the per-market outflow equation is NOT proved. -/
 theorem c01m_endblock_idle_frame (s : State) (hm : s.mqueue = []) (ho : s.obqueue = []) : (step s .endBlock).1 = s := by
   have h1 : betEndBlock (s.mqueue.length + 1) s s.params.betBatch = some s := by
     unfold betEndBlock
